@@ -12,6 +12,8 @@ SETTINGS = {
 SALT_SPAN = {"md5crypt": (3, 11), "sha256crypt": (15, 31), "sha512crypt": (15, 31), "sunmd5": (14, 22), "sha1crypt": (9, 17), "descrypt": (0, 2), "bigcrypt": (0, 2),
              "bsdicrypt": (5, 9), "bcrypt": (7, 28), "bcrypt_a": (7, 28), "bcrypt_x": (7, 28), "bcrypt_y": (7, 28), "scrypt": (14, 22), "yescrypt": (7, 19), "gost_yescrypt": (8, 20)}
 
+DESFAM = ("descrypt", "bigcrypt", "bsdicrypt")
+
 def significant(m, plen, i, bit):
     """is bit `bit` of byte `i` of a `plen`-byte phrase documented as significant for method m?"""
     if m == "descrypt": return i < 8 and bit != 0x80
@@ -29,27 +31,34 @@ def run(R):
         for n in lens:
             heavy = m in ("sunmd5", "sha256crypt", "sha512crypt", "yescrypt", "gost_yescrypt", "scrypt")
             if quick and heavy and n not in (1, 8, 64, 72, 128, 511): continue
-            # 7-bit base phrase for the DES family / no 0xff for $2a$ (its documented quirk), so that the flip classes below are clean
-            base = bytes(R.rng.randrange(0x21, 0x7f) for _ in range(n))
-            g = [CS.crypt_op("rn", 0, base, st)]; gi = [(m, n, "base", None)]
-            pos = sorted(set([0, n - 1, n // 2] + [p for p in (7, 8, 71, 72, 127, 128) if p < n] + ([R.rng.randrange(n) for _ in range(3)] if quick else list(range(n)))))
-            for i in pos:
-                for bit in ([1, 0x80, 1 << R.rng.randrange(1, 7)] if quick else [1, 2, 4, 8, 16, 32, 64, 128]):
-                    c = base[i] ^ bit
-                    if c == 0: continue
-                    p2 = base[:i] + bytes([c]) + base[i + 1:]
-                    g.append(CS.crypt_op("rn", 0, p2, st)); gi.append((m, n, "flip", (i, bit)))
-            g.append(CS.crypt_op("rn", 0, base[:-1], st)); gi.append((m, n, "truncate", None))
-            g.append(CS.crypt_op("rn", 0, base + b"x", st)); gi.append((m, n, "extend", None)) if n < 511 else g.pop()
-            if m in SALT_SPAN and n in (1, 8, 64):
-                a, b = SALT_SPAN[m]
-                alpha = S.BF64 if m.startswith("bcrypt") else S.A64
-                for i in range(a, b):
-                    c = alpha[(alpha.index(st[i]) + 1 + R.rng.randrange(62)) % 64] if st[i] in alpha else ord("a")
-                    if m.startswith("bcrypt") and i == 28: continue      # only two bits of the 22nd salt character are significant
-                    s2 = st[:i] + bytes([c]) + st[i + 1:]
-                    g.append(CS.crypt_op("rn", 0, base, s2)); gi.append((m, n, "salt", i))
-            groups.append(g); info.append(gi)
+            # two base phrases per (method, length): a 7-bit one, and an 8-bit one rich in 0x80/0xff/0x81 bytes (bytes whose
+            # shifted or sign-extended forms are special: seeded/C03).  $2a$/$2x$ keep 7-bit bases only (their documented quirks
+            # concern exactly the 8-bit bytes).
+            variants = ["7bit"] + ([] if m in ("bcrypt_a", "bcrypt_x") else ["8bit"])
+            for var in variants:
+                if var == "7bit": base = bytes(R.rng.randrange(0x21, 0x7f) for _ in range(n))
+                else: base = bytes(R.rng.choice([0x80, 0x80, 0xff, 0x81, R.rng.randrange(0x82, 0xff), R.rng.randrange(0x21, 0x7f)]) for _ in range(n))
+                g = [CS.crypt_op("rn", 0, base, st)]; gi = [(m, n, "base", None)]
+                pos = sorted(set([0, n - 1, n // 2] + [p for p in (6, 7, 8, 71, 72, 127, 128) if p < n] + ([R.rng.randrange(n) for _ in range(3)] if quick else list(range(n)))))
+                for i in pos:
+                    for bit in ([1, 0x80, 1 << R.rng.randrange(1, 7)] if quick else [1, 2, 4, 8, 16, 32, 64, 128]):
+                        c = base[i] ^ bit
+                        if c == 0: continue
+                        p2 = base[:i] + bytes([c]) + base[i + 1:]
+                        g.append(CS.crypt_op("rn", 0, p2, st)); gi.append((m, n, "flip", (i, bit)))
+                # truncation/extension: for the DES family a final byte whose low 7 bits are zero is the same key byte as "no byte"
+                if not (m in DESFAM and base[-1] & 0x7f == 0):
+                    g.append(CS.crypt_op("rn", 0, base[:-1], st)); gi.append((m, n, "truncate", None))
+                if n < 511: g.append(CS.crypt_op("rn", 0, base + b"x", st)); gi.append((m, n, "extend", None))
+                if var == "7bit" and m in SALT_SPAN and n in (1, 8, 64):
+                    a, b = SALT_SPAN[m]
+                    alpha = S.BF64 if m.startswith("bcrypt") else S.A64
+                    for i in range(a, b):
+                        c = alpha[(alpha.index(st[i]) + 1 + R.rng.randrange(62)) % 64] if st[i] in alpha else ord("a")
+                        if m.startswith("bcrypt") and i == 28: continue      # only two bits of the 22nd salt character are significant
+                        s2 = st[:i] + bytes([c]) + st[i + 1:]
+                        g.append(CS.crypt_op("rn", 0, base, s2)); gi.append((m, n, "salt", i))
+                groups.append(g); info.append(gi)
     ops, il, ml = R.run_pair_sharded(groups)
     infos = [x for gi in info for x in gi]
     diffs = compare(R, ops, il, ml, CS.proj_crypt, "perturbation stream")
